@@ -76,7 +76,7 @@ def discharge(ob, timeout_ms=20000):
     fs = ob.formula()
     st, model, backend, secs = check_formulas(fs, timeout_ms)
     ob.status, ob.model, ob.backend, ob.time = st, model, backend, secs
-    ob.definitive = (st != "violated") or is_definitive(fs)
+    ob.definitive = (st != "violated") or is_definitive(fs) or getattr(ob, "concrete", False)
     return ob
 
 
